@@ -193,7 +193,55 @@ func mutateDate(t *rapid.T, member string, nfields int, seps [3]string) string {
 		}
 		return out
 	}
-	switch rapid.IntRange(0, 15).Draw(t, "dateMut") {
+	// length-preserving combinations: an unpadded field compensated by one extra
+	// character elsewhere (two leniencies of a lenient parser can cancel out)
+	unpadAndPad := func(pad string, where int) string {
+		fields := []*string{&m, &d, &h, &mi, &s}
+		avail := map[int]int{2: 1, 3: 2, 6: 5}[nfields]
+		if avail == 0 {
+			return " " + member
+		}
+		f := fields[rapid.IntRange(0, avail-1).Draw(t, "unpadField")]
+		*f = rapid.SampledFrom([]string{"1", "9", "0"}).Draw(t, "oneDigit")
+		out := build()
+		switch where {
+		case 0: // in front of the unpadded field's position: anywhere in the text
+			at := rapid.IntRange(0, len(out)).Draw(t, "padAt")
+			return out[:at] + pad + out[at:]
+		case 1:
+			return pad + out
+		default:
+			return out + pad
+		}
+	}
+	switch rapid.IntRange(0, 21).Draw(t, "dateMut") {
+	case 16:
+		return unpadAndPad(" ", 0)
+	case 17:
+		sep := seps[rapid.IntRange(0, 2).Draw(t, "padSep")]
+		if sep == "" {
+			sep = "0"
+		}
+		return unpadAndPad(sep, 0)
+	case 18:
+		return unpadAndPad(rapid.SampledFrom([]string{" ", "0", "\t"}).Draw(t, "padCh"), 1)
+	case 19:
+		return unpadAndPad(rapid.SampledFrom([]string{" ", "0", "Z"}).Draw(t, "padCh"), 2)
+	case 20:
+		// one digit of the member replaced by a blank
+		b := []byte(member)
+		var idx []int
+		for i, ch := range b {
+			if ch >= '0' && ch <= '9' {
+				idx = append(idx, i)
+			}
+		}
+		if len(idx) > 0 {
+			b[idx[rapid.IntRange(0, len(idx)-1).Draw(t, "blankAt")]] = ' '
+		}
+		return string(b)
+	case 21:
+		return editOnce(t, editOnce(t, member))
 	case 0:
 		m = "00"
 	case 1:
